@@ -67,12 +67,15 @@ def file_cases(tier, seed):
                 steps=[list(s) for s in steps])
     for t in ("dir", "devnull", "devzero"):
         add(kind="nonregular", target=t)
+    # clones of one entity streamed concurrently on several threads
+    for i in range(3 if not T else 10):
+        add(kind="concurrent", size=rng.choice([200001, 4 * 65536 + 3]), threads=4 + (i % 3), reps=40 if not T else 150)
     return cases
 
 
 # ---------------------------------------------------------------- FsDir
 
-SEGS = ["a", "sub", "..", ".", "...", "..a", "a..", "", "secret", "b", "b.gz", "c", "x", "a.gz"]
+SEGS = ["a", "sub", "..", ".", "...", "..a", "a..", "", "secret", "b", "b.gz", "c", "x", "a.gz", "c.gz", "a.gz.gz"]
 AE = [(None, {"k": "absent"}), ("gzip", {"k": "list", "l": [{"c": "gzip", "q": 1000}]}),
       ("gzip;q=0", {"k": "list", "l": [{"c": "gzip", "q": 0}]}),
       ("identity", {"k": "list", "l": [{"c": "identity", "q": 1000}]}),
@@ -113,7 +116,7 @@ def dir_cases(tier, seed):
             for auto in ((True, False) if rng.random() < 0.5 else (True,)):
                 cases.append({"path": p, "abs": {"segs": sg, "nul": nulpos >= 0}, "ae": hdr, "abs_ae": abs_ae, "auto_gzip": auto})
     # every Accept-Encoding x auto_gzip on the names with .gz siblings / .gz directories
-    for p in ["a", "b", "sub/a", "sub/c", "...", "sub/", "sub", "", ".", "a.", "sub/...", "sub/a..", "a..", "x", "b.gz", "b.gz/x"]:
+    for p in ["a.gz", "sub/c.gz", "a.gz.gz", "sub/c.gz.gz", "a", "b", "sub/a", "sub/c", "...", "sub/", "sub", "", ".", "a.", "sub/...", "sub/a..", "a..", "x", "b.gz", "b.gz/x"]:
         for hdr, abs_ae in AE:
             for auto in (True, False):
                 cases.append({"path": p, "abs": {"segs": p.split("/"), "nul": False}, "ae": hdr, "abs_ae": abs_ae, "auto_gzip": auto})
